@@ -2,6 +2,7 @@ package c10
 
 import (
 	"fmt"
+	"os"
 	"testing"
 
 	"verif/ev"
@@ -11,6 +12,9 @@ import (
 // among them the minimal reproductions of the two listed findings (F12, F10). Each is a normal case of
 // the conservation / threshold oracle, only hand-written instead of generated.
 func TestMinimal(t *testing.T) {
+	if os.Getenv("C10_SKIP_MINIMAL") != "" { // sensitivity runs: let the generated parts show what they find on their own
+		return
+	}
 	shard, n := ev.Shard()
 	idx := 0
 	one := func(name string, nontrivial bool, canon interface{}, f func()) {
